@@ -63,3 +63,9 @@ func vrtHeader(m *dns.Msg) {
 	m.CheckingDisabled = vrtBool()
 	m.Rcode = int(vrtU16() & 0xfff)
 }
+
+// vrtFitsUDP: the reply was truncated for a UDP client advertising size bytes.
+// Symbolic run: dns.Msg.Truncate was called exactly once on m, with exactly
+// this size, after the last additional record was attached.  Native run: the
+// real Truncate ran, so the packed length must not exceed size.
+func vrtFitsUDP(m *dns.Msg, size int) bool { return m.Len() <= size }
